@@ -1,5 +1,6 @@
 """C03 -- failure is signalled: fault injection at upstream calls, oversize requests, exhausted fixed sources."""
-from vlib import build, runner
+import subprocess
+from vlib import build, runner, proc
 from checks import poolrun, poolgen, stackgen
 
 
@@ -38,9 +39,23 @@ def oracle(log):
 
 def gen_arena_faults(rng):
     """block-level histories on arenas over growing and fixed sources: upstream failures at arbitrary positions, then retries"""
-    src = rng.choice(['fixed', 'fixed', 'grow'])
+    src = rng.choice(['fixed', 'fixed', 'grow', 'static', 'virtual'])
     cached = rng.choice(['cached', 'uncached'])
     bs = rng.choice([64, 256, 1000, 4096])
+    if src in ('static', 'virtual'):
+        # sources with a fixed number of equal blocks: run them dry (also more than once), give blocks back, take them again
+        bs = rng.choice([1024, 2048, 4096]) if src == 'static' else rng.choice([4096, 8192])
+        nb = 16384 // bs if src == 'static' else rng.randint(1, 4)
+        lines = ['arena %s %s %d %d' % (cached, src, bs, nb)]
+        for _ in range(rng.randint(2, 4)):
+            lines += ['ab'] * (nb + rng.randint(1, 2))
+            lines += ['db'] * rng.randint(1, nb)
+            if rng.random() < 0.5:
+                lines.append('shrink')
+            lines += ['ab'] * rng.randint(1, 2)
+            lines += ['db'] * nb + ['shrink', 'q']
+        lines.append('destroy')
+        return '\n'.join(lines) + '\n'
     lines = ['arena %s %s %d 0' % (cached, src, bs)]
     nab = 0
     for _ in range(rng.randint(8, 40)):
@@ -64,20 +79,23 @@ def gen_arena_faults(rng):
 def arena_oracle(log):
     """a refused block request leaves the arena as it was and able to serve the next request"""
     msgs = []
-    prev = None; fixed = False
+    prev = None; fixed = False; nb = 0
     for ln in log.split('\n'):
         parts = [x.strip() for x in ln.split('|')]
         if len(parts) < 3:
             continue
         if parts[0].startswith('arena '):
             fixed = ' fixed ' in parts[0]
+            h = parts[0].split()
+            nb = int(h[4]) if len(h) > 4 and h[2] in ('static', 'virtual') else 0
         st = dict(x.split('=') for x in parts[2].split() if '=' in x)
         lhs, rhs = [x.strip() for x in parts[0].split('=', 1)]
         if lhs == 'ab' and rhs.startswith('throw'):
             if prev is not None and st != prev:
                 msgs.append('a refused allocate_block changed the arena: %s -> %s' % (prev, st))
-            injected = 'fail' in parts[1]
-            if not injected and prev is not None and not (fixed and int(prev.get('size', 0)) + int(prev.get('cache', 0)) >= 1):
+            injected = 'fail' in parts[1] and nb == 0      # sources with a fixed number of blocks log their own refusals as failures
+            held = int(prev.get('size', 0)) + int(prev.get('cache', 0)) if prev is not None else 0
+            if not injected and prev is not None and not (fixed and held >= 1) and not (nb and held >= nb):
                 msgs.append('allocate_block refused (%s) although the source can deliver a block: state %s' % (rhs, prev))
         prev = st
     return msgs
@@ -124,6 +142,40 @@ def run(ctx):
         sc = gen_arena_faults(rng)
         for c in cfgs:
             cases.append(dict(exe=ex_arena[c], script=sc, replay_args=['arena'], tag=('arena', sc.split('\n')[0], c)))
+    # new_allocator when operator new refuses: every chain of new_handlers (throwing, uninstalling itself, installing the next
+    # one, making memory available) ends in a pointer or in out_of_memory -- never in null, never in a loop
+    nl_lines = []
+    tables = [(-1, ''), (0, 't'), (0, 'u'), (0, 'f'), (1, 'u,i0'), (1, 't,i0'), (1, 'f,i0'), (2, 'u,i0,i1'), (3, 't,u,f,i1'), (4, 'u,i0,i1,i2,i3'), (2, 'f,f,i0')]
+    for _ in range(20 if thorough else 6):
+        k = rng.randint(1, 6); tb = []
+        for h in range(k + 1):
+            tb.append(rng.choice(['t', 'u', 'f'] + (['i%d' % rng.randint(0, h - 1)] * 3 if h else [])))
+        tables.append((k, ','.join(tb)))
+    for c in cfgs[:2]:
+        exn = build.build_harness('newfail', c, ['h_newfail.cpp'])
+        for first, tb in tables:
+            o = proc.run([exn, str(first), tb], timeout=30)
+            ln = (o.stdout.strip().split('\n') or [''])[-1]
+            why = None
+            if o.returncode != 0 or not ln.startswith('newfail = '):
+                why = 'new_allocator did not come back from a refused request (exit status %s, %s)' % (o.returncode, ln or 'no answer: the retry loop keeps calling a handler')
+            else:
+                t = ln.split()
+                kvs = dict(x.split('=') for x in t[3:] if '=' in x)
+                if t[2] not in ('ok', 'oom'):
+                    why = 'a refused request ended as "%s" instead of a pointer or out_of_memory' % t[2]
+                elif t[2] == 'oom' and kvs.get('oom') != '1':
+                    why = 'out_of_memory thrown but its handler was called %s times' % kvs.get('oom')
+                elif kvs.get('intact') != '1' or kvs.get('later') != 'ok':
+                    why = 'after the failure: earlier allocation intact=%s, later request %s' % (kvs.get('intact'), kvs.get('later'))
+                nl_lines.append('n %d %s %s' % (first, tb or 't', ln[len('newfail '):]))
+            if why and len(ctx.violations) < 3:
+                ctx.violation('newfail/%d/%s/%s' % (first, tb, c), 'C03 fails on the implementation: ' + why + ' (first handler %d, handler table "%s")' % (first, tb), dict(harness='h_newfail.cpp', config=c, args=[str(first), tb], output=o.stdout[-300:]))
+    if rexe and nl_lines:
+        rr = subprocess.run([rexe, 'lowlevel', 'newloop'], input='\n'.join(nl_lines) + '\n', stdout=subprocess.PIPE, text=True).stdout
+        for ln in rr.split('\n'):
+            if ln.startswith('DIVERGE'):
+                ctx.tie_broken.append('correspondence (new_handler loop): ' + ln[:300])
     res = runner.run_cases(cases, rexe)
     ops = 0; div = 0; per = {}; throws = 0; nulls = 0; injected = 0
     for r in res:
